@@ -6,6 +6,7 @@ import (
 	"math"
 	"math/big"
 	"reflect"
+	"strconv"
 	"strings"
 
 	"verif/internal/core"
@@ -189,6 +190,13 @@ func execConv(c core.Case) []core.Rec {
 			v = l.Item(0)
 		}
 		rec["val"] = numeralOfText(v.String())
+		if f == "decimal64" {
+			// the text of a decimal64 is the shortest numeral that reads back as the same
+			// binary64: what it denotes is what reading it gives
+			if x, perr := strconv.ParseFloat(strings.TrimSpace(v.String()), 64); perr == nil {
+				rec["val"], _ = NumeralOf(x)
+			}
+		}
 		if s, ok := NumeralOf(v.Value()); ok {
 			rec["back"] = s
 		} else {
